@@ -22,7 +22,7 @@ LOOPS = [
 
 def run(ctx):
     F, cl = MS.run_memsafe(ctx, "multiboot2", ["C14", "C15", "C03", ("C05", c05.only_mbi_kinds, "boot-information kinds"), "C18", "C19", "C20",
-                                                   ("C02", lambda o: o.key.startswith("ref_from_ptr") or "end-tag" in o.key, "declared region")], {"sites": 50})
+                                                   ("C02", lambda o: o.key.startswith("ref_from_ptr") or "end-tag" in o.key, "declared region")], {"sites": 25})
     # TagIter::new call sites
     n, bad = MS.tagiter_new_callsites(ctx, F, "multiboot2")
     ctx.check(n >= 2 and not bad, "P3", "TagIter::new-callers", "every TagIter::new call passes the inherent payload() of a loaded structure (length a multiple of 8, 8-aligned)",
